@@ -13,7 +13,9 @@ type (
 )
 
 // fieldVal returns the value of type T for key from obj.  Use [any] if the
-// field's type doesn't matter.
+// field's type doesn't matter.  A null value is returned as the zero value of
+// T, except when T is [yobj]: callers write into the returned object, so a null
+// object is reported as absent instead of as a nil map.
 func fieldVal[T any](obj yobj, key string) (v T, ok bool, err error) {
 	val, ok := obj[key]
 	if !ok {
@@ -21,7 +23,9 @@ func fieldVal[T any](obj yobj, key string) (v T, ok bool, err error) {
 	}
 
 	if val == nil {
-		return v, true, nil
+		_, isObj := any(v).(yobj)
+
+		return v, !isObj, nil
 	}
 
 	v, ok = val.(T)
